@@ -35,6 +35,7 @@ TReset ==
     /\ IsEvent("reset")
     /\ kind' = TLog[l].kind /\ cfg' = TLog[l].cfg /\ cid' = TLog[l].c
     /\ InGrammar(TLog[l].kind, TLog[l].cfg)          \* the harness drove a member of the grammar
+    /\ PadSound(TLog[l].kind, TLog[l].cfg)
     /\ phase' = "new" /\ verdict' = "none" /\ panicked' = FALSE /\ pcall' = "-" /\ nh' = 0
 
 Pan == ~TLog[l].ok
